@@ -4,6 +4,9 @@ import ast
 from ..model import AnalysisError
 from ..lib import (FV, Alias, alias_term, decode_new, decode_call, phi_members, is_sym, is_const, is_str, strip_stores, stores_of,
                    find_assign, find_assigns, simple_assigns, local_term, cond_equiv, cond_implies, path_term)
+from ..lib import full_term  # noqa: F401
+from ..lib import (reached_iff, reached_implies, implies_reached, reached_iff_any, path_term, cond_equiv, cond_implies,  # noqa: F401
+                   else_stmts, branch_stmts, context_literals)
 from ..cfg import always_raises, walk_stmts
 from . import common as cm
 from . import geom
@@ -529,7 +532,7 @@ def d7_selection(chk, repo):
         if isinstance(st, ast.Assign) and isinstance(st.targets[0], ast.Name) and not (isinstance(st.value, ast.Constant) and st.value.value is None):
             t_ = c.term(st.value, at=st)
             if c.eq(t_, c.spec("self.field")):
-                sel.setdefault("whole", []).append(path_term(c, st))
+                sel.setdefault("whole", []).append(full_term(c, st))
     if "whole" in sel and len(sel["whole"]) >= 2:
         got = c.ev._bool("or", sel["whole"])
         want = c.spec("self.field.nvdim == 1 or self.field.nvdim == 2 or self.field.nvdim == 3")
